@@ -34,7 +34,7 @@ ARITY_H = H('arity', 'oracle_arity', 8000, 400000, spec_level=True, nontrivial=l
 CHECKS = {
     'C01': dict(
         spec=['FpVerif.Spec.C01', 'FpVerif.Spec.C01Inst', 'FpVerif.Spec.C01T'],
-        harnesses=MONAD_H + [TRYOPT_H, ARITY_H, H('iter', 'oracle_iter', 4000, 400000, extra=dict(quick=['-prop', 'C12'], thorough=['-prop', 'C12']))],
+        harnesses=MONAD_H + [TRYOPT_H, ARITY_H, H('iter', 'oracle_iter', 4000, 400000, spec_level=True, extra=dict(quick=['-prop', 'C12'], thorough=['-prop', 'C12']))],
         level='proof',
         modelled='X_monad.go + X_traverse.go of option/try/either/statet (one generic model of the generator template, '
                  'instantiated four times; every arity through operand lists); FlatMap/Pure/FoldM and the hand-written cores of '
@@ -67,7 +67,7 @@ CHECKS = {
     'C04': dict(
         spec=['FpVerif.Spec.C04Seq', 'FpVerif.Spec.C04Facts', 'FpVerif.Spec.C03'],
         facts=facts_factx,
-        harnesses=[H('seqheap', 'oracle_seqheap', 3000, 150000), H('hamt', 'oracle_hamt', 20000, 2000000)],
+        harnesses=[H('seqheap', 'oracle_seqheap', 3000, 150000), H('hamt', 'oracle_hamt', 40000, 4000000)],
         level='proof',
         level_note='trusted: Lean kernel (propext/Classical.choice/Quot.sound only); model fidelity checked by correspondence (alias class = which backing '
                    'array and offset, and contents, of every result; plus the direct check that no backing array ever seen changes over its full capacity). '
@@ -128,7 +128,7 @@ CHECKS = {
     ),
     'C12': dict(
         spec=['FpVerif.Spec.C12', 'FpVerif.Spec.C12List'],
-        harnesses=[H('iter', 'oracle_iter', 8000, 800000,
+        harnesses=[H('iter', 'oracle_iter', 8000, 800000, spec_level=True,
                      extra={'quick': ['-prop', 'C12'], 'thorough': ['-prop', 'C12']})],
         level='proof',
         modelled='iterator.go (all methods), iterator/iterator_op.go (sources, Map, FilterMap, FlatMap, Zip*, Scan, '
@@ -146,7 +146,7 @@ CHECKS = {
     ),
     'C20': dict(
         spec=['FpVerif.Spec.C20'],
-        harnesses=[H('iter', 'oracle_iter', 8000, 800000,
+        harnesses=[H('iter', 'oracle_iter', 8000, 800000, spec_level=True,
                      extra={'quick': ['-prop', 'C20'], 'thorough': ['-prop', 'C20']})],
         level='proof',
         modelled='fp.Iterator protocol for every source/combinator of iterator.go + iterator/iterator_op.go (same models as '
@@ -158,7 +158,10 @@ CHECKS = {
     'C14': dict(
         spec=['FpVerif.Spec.C14'],
         harnesses=[H('arity', 'oracle_arity', 16000, 1600000, spec_level=True,
-                     nontrivial=lambda op, impl: op.count(' ') >= 3)],
+                     nontrivial=lambda op, impl: op.count(' ') >= 3),
+                   # the eq/ord/hash/monoid/clone TupleN families live in the typeclass machinery (C09-C11, C18)
+                   H('tc', 'oracle_tc', 1500, 100000, spec_level=True),
+                   H('clone', 'oracle_clone', 2000, 100000, spec_level=True)],
         level='proof',
         modelled='every arity-indexed generated family outside the monad family (C01) and the eq/ord/hash/monoid/clone/future '
                  'families: TupleN/LabelledN accessors + String, fp FuncN.ApplyFirstN/ApplyLastN/Widen, ComposeN, IdN, Flip, Flip2; '
@@ -268,6 +271,64 @@ for _k, _v in CHECKS_TC.items():
     for _h in _v['harnesses']:
         _h['spec_level'] = True
 CHECKS.update(CHECKS_TC)
+
+GOMBOK_ASSUME = [
+    'encoding/json is an abstract codec per type (enc/dec with the current target); Faithful / NotNull are hypotheses of the round-trip theorems',
+    'values are immutable trees in the Lean model; sharing of mutable storage (slices, maps, pointers) between copies is outside the model and is '
+    'checked on the implementation only (clone alias check, "target unchanged on error" with identity-sensitive rendering)',
+    'the programs dimension (struct declarations, annotations, derive directives) is SAMPLED from the grammar of harness/gombokgen; '
+    'the Go compiler decides "compiles"',
+    'field names of the modelled grammar are ASCII (gombok rejects other names with a gofmt error)',
+]
+
+def GOMBOK_H(prop, oracle, quick=240, thorough=4800):
+    return H('gombokrun', oracle, quick, thorough, spec_level=True,
+             extra=dict(quick=['-prop', prop], thorough=['-prop', prop]),
+             timeout=dict(quick=900, thorough=6000),
+             nontrivial=lambda op, impl: (op.startswith('(eval') and impl.count(';') >= 3) or op.startswith('(optjson'))
+
+CHECKS.update({
+    'C07': dict(
+        spec=['FpVerif.Spec.C07'],
+        harnesses=[GOMBOK_H('C07', 'oracle_record')],
+        level='translation_validation',
+        level_note='programs dimension: struct declarations sampled from a grammar (field kinds x visibility x embedded/underscore x tags x '
+                   'generics/constraints x annotations, 0..23 fields, name-collision shapes), gombok built from the working tree and run on them, '
+                   'go build decides "compiles"; values dimension: Lean theorems for all values of the record model + differential execution '
+                   '(generated driver vs oracle_record) + direct evaluation of every law on the generated code',
+        modelled='the SEMANTICS of gombok\'s @fp.Value output as a function of the declaration (FpVerif/Model/Record.lean): which methods exist '
+                 '(name derivation, genMethod set, tuple limit max.Product), and what getters, WithF/WithSomeF/WithNoneF, Builder and its setters, '
+                 'AsTuple/FromTuple, Unapply/Apply, AsMutable/AsImmutable, AsLabelled/FromLabelled, AsMap/FromMap (type-assertion guard), '
+                 'NewT of @fp.AllArgsConstructor and the json tags of the Mutable twin do. NOT modelled: the generator itself '
+                 '(cmd/gombok, metafp, genfp), String(), @fp.Deref, @fp.RequiredArgsConstructor, adaptors/delegates.',
+        assumptions=GOMBOK_ASSUME,
+    ),
+    'C08': dict(
+        spec=['FpVerif.Spec.C08'],
+        harnesses=[GOMBOK_H('C08', 'oracle_record')],
+        level='translation_validation',
+        level_note='Lean: derived Eq/Ord/Hashable/Monoid/Clone over the record model are lawful and field-wise for every spec from lawful components; '
+                   'harness: @fp.Derive directives generated from the grammar (plain, nested, generic, recursive through pointers, recursive=true, '
+                   'local overriding instances, instances in the type\'s own package), laws and field-wise references evaluated on the generated instances',
+        modelled='FpVerif/Model/Derive.lean: tuple/hlist combinators of eq/ord/hash/monoid/clone as recursion over the component list, ContraMap/IMap/'
+                 'Generic through AsTuple/Unapply and Builder{}.FromTuple/Apply; a small heap model for "shares no mutable storage"; clone.Ptr as '
+                 'written (shallow) next to the lawful deep version. NOT modelled: instance resolution inside gombok (checked by the harness through '
+                 'observably different instances), Show.',
+        assumptions=GOMBOK_ASSUME + ['component instances are lawful (ord.Seq/ord.Slice are not: order LAWS are not demanded of structs containing them, '
+                                     'the lexicographic composition still is)'],
+    ),
+    'C15': dict(
+        spec=['FpVerif.Spec.C15'],
+        harnesses=[GOMBOK_H('C15', 'oracle_json')],
+        level='translation_validation',
+        level_note='Lean: Option.MarshalJSON/UnmarshalJSON, Unit and the generated struct methods over an abstract encoding/json codec; '
+                   'harness: real encoding/json round trips for generated @fp.Json structs and for fp.Option/fp.Unit, marshal vs Mutable twin '
+                   'byte-for-byte, arbitrary bytes with recover and identity-sensitive target comparison',
+        modelled='FpVerif/Model/Json.lean: option.go MarshalJSON/UnmarshalJSON (first-byte test, empty input, nil receiver), fp.go Unit, generated '
+                 'MarshalJSON/UnmarshalJSON of @fp.Json structs through AsMutable/AsImmutable. encoding/json itself is an abstract codec.',
+        assumptions=GOMBOK_ASSUME,
+    ),
+})
 
 HOOK_COMMITS = ['068ea8a', '2723e24', 'd1abfff']
 
